@@ -179,6 +179,9 @@ func pkgCase(a *pkgAPI, k, mi int) {
 		// a destination longer than SignatureSize is allowed; the signature is its prefix
 		buf1 := make([]byte, a.sigSize+5)
 		buf2 := make([]byte, a.sigSize)
+		for j := range buf1 { // a re-used destination: the signature must not depend on what it held
+			buf1[j] = 0xC3 ^ byte(j)
+		}
 		var e1, e2 error
 		if p := lib.Try("SignTo:"+name, msg, func() {
 			e1 = a.signTo(sk, msg, ctx, false, buf1)
